@@ -60,7 +60,11 @@ def c08_scale(ctx, case):
         ctx.check(abs(ratio / factor - 1) <= 1e-9,
                   "%s: psd(scale_by_freq=True)/psd(False) = %.6g, expected 2 pi/df = %.6g (ratio/expected = %.6g; sampling=%g NFFT=%d)"
                   % (row, ratio, factor, ratio / factor, fs, nfft), sig=sig)
-    ctx.close(pb, pa * factor, "%s: psd(True) vs psd(False)*2pi/df" % row, rtol=1e-12, atol=1e-300, sig=sig)
+    if row in ("pmusic", "pev"):
+        # the pseudo-spectrum may be +inf on the grid (C17); compared as 1/pseudo-spectrum
+        est.compare_psd(ctx, row, pb, pa * factor, "%s: psd(True) vs psd(False)*2pi/df" % row, sig=sig, tol=1e-12)
+    else:
+        ctx.close(pb, pa * factor, "%s: psd(True) vs psd(False)*2pi/df" % row, rtol=1e-12, atol=1e-300, sig=sig)
 
 
 @sub("C08.fs", strategy=cls_case(), quick=2400, thorough=50000, shards_quick=4,
@@ -107,7 +111,10 @@ def c08_setter(ctx, case):
     b = est.build(row, x, p, NFFT=case["nfft"], sampling=s2, scale_by_freq=True)
     ctx.cls(row)
     ctx.nontrivial(s1 != s2)
-    ctx.close(np.real(est.psd_of(a)), np.real(est.psd_of(b)), "%s: psd after assigning sampling/scale_by_freq vs fresh object" % row, rtol=1e-10, sig=sig)
+    if row in ("pmusic", "pev"):
+        est.compare_psd(ctx, row, est.psd_of(a), est.psd_of(b), "%s: psd after assigning sampling/scale_by_freq vs fresh object" % row, sig=sig, tol=1e-10)
+    else:
+        ctx.close(np.real(est.psd_of(a)), np.real(est.psd_of(b)), "%s: psd after assigning sampling/scale_by_freq vs fresh object" % row, rtol=1e-10, sig=sig)
     ctx.check(abs(a.df - b.df) <= 1e-12 * b.df, "%s: df=%r after assigning sampling, fresh object has %r" % (row, a.df, b.df), sig=sig)
     ctx.close(np.asarray(a.frequencies(), dtype=float), np.asarray(b.frequencies(), dtype=float), "%s: frequencies() after assigning sampling" % row, rtol=1e-12, sig=sig)
 
